@@ -136,6 +136,7 @@ def writes_in_function(repo, inv, q, m, fn, cg=None):
     cls = enclosing_class(fn)
     clsq = getattr(cls, "_qualname", None)
     params_with_default = {p for (fq, p) in inv.defaults if fq == q}
+    _aliasing = set()
 
     def resolve(base):
         """object id of expression `base` if it denotes a shared mutable object"""
@@ -144,6 +145,20 @@ def writes_in_function(repo, inv, q, m, fn, cg=None):
             if nm in params_with_default:
                 return "default:%s(%s)" % (q, nm)
             if nm in locs:
+                # a local that is only ever bound to a shared object (x = TABLE; x.update(...)) is that object
+                if nm in _aliasing:
+                    return None
+                binds = [a for a in ast.walk(fn) if isinstance(a, ast.Assign) and len(a.targets) == 1 and isinstance(a.targets[0], ast.Name) and a.targets[0].id == nm]
+                others = [a for a in ast.walk(fn) if (isinstance(a, (ast.AugAssign, ast.AnnAssign, ast.For, ast.NamedExpr, ast.comprehension, ast.With)) and any(
+                    isinstance(x, ast.Name) and x.id == nm and isinstance(x.ctx, ast.Store) for x in ast.walk(a.target if hasattr(a, "target") else a)))]
+                if binds and not others and all(isinstance(a.value, (ast.Name, ast.Attribute)) for a in binds):
+                    _aliasing.add(nm)
+                    try:
+                        oids = {resolve(a.value) for a in binds}
+                    finally:
+                        _aliasing.discard(nm)
+                    if len(oids) == 1 and None not in oids:
+                        return oids.pop()
                 return None
             if (m.name, nm) in inv.globals:
                 return "global:%s.%s" % (m.name, nm)
@@ -204,6 +219,15 @@ def writes_in_function(repo, inv, q, m, fn, cg=None):
             oid = resolve(n.func.value)
             if oid:
                 out.append((oid, n, ".%s()" % n.func.attr))
+        elif isinstance(n, ast.Attribute) and isinstance(n.ctx, ast.Store) and isinstance(n.value, ast.Name) and n.value.id not in locs and n.value.id not in ("self", "cls") \
+                and isinstance(m.defs.get(n.value.id), ast.ClassDef):
+            # <ModuleLevelClass>.attr = value inside a function: the attribute is shared by every user of the class
+            cdef = m.defs[n.value.id]
+            read = any(isinstance(x, ast.Attribute) and isinstance(x.ctx, ast.Load) and x.attr == n.attr and isinstance(x.value, ast.Name) and x.value.id in ("self", "cls", n.value.id)
+                       for x in ast.walk(cdef)) or any(isinstance(x, ast.Attribute) and isinstance(x.ctx, ast.Load) and x.attr == n.attr and isinstance(x.value, ast.Name)
+                                                      and x.value.id == n.value.id for x in ast.walk(m.tree))
+            if read:
+                out.append(("classattr:%s.%s.%s" % (m.name, n.value.id, n.attr), n, "class attribute rebound"))
         elif isinstance(n, ast.AugAssign):
             oid = resolve(n.target) if isinstance(n.target, (ast.Name, ast.Attribute)) else None
             if oid and isinstance(n.target, ast.Attribute):
@@ -288,7 +312,9 @@ def run(rep, tier):
     rep.extra["shared_objects"] = {"module_level": len(inv.globals), "class_level": len(inv.class_attrs), "mutable_defaults": sorted("%s(%s)" % k for k in inv.defaults),
                                    "aliased_instance_attrs": sorted("%s.%s" % k for k in inv.alias_attrs)}
     # ---------------------------------------------------------------- positive control
-    src = "CACHE = {}\nclass K:\n    table = []\n    def f(self, x):\n        self.table.append(x)\ndef g(k, memo={}):\n    CACHE[k] = 1\n    memo[k] = 2\n"
+    src = ("CACHE = {}\nNAMES = {}\nclass K:\n    table = []\n    mode = None\n    def f(self, x):\n        self.table.append(x)\n        return self.mode\n"
+           "def g(k, memo={}):\n    CACHE[k] = 1\n    memo[k] = 2\ndef h(extra):\n    names = NAMES\n    names.update(extra)\n    copy = dict(NAMES)\n    copy.update(extra)\n"
+           "def configure(v):\n    K.mode = v\n")
     cm = Module("ctl", "/dev/null/ctl.py", src)
     fns, clss = {}, {}
     for n in ast.walk(cm.tree):
@@ -318,7 +344,7 @@ def run(rep, tier):
     got = []
     for qn, (m_, fn_) in fns.items():
         got += [o for o, n_, h in writes_in_function(FakeRepo(), cinv, qn, m_, fn_)]
-    if sorted(got) != ["class:ctl.K.table", "default:ctl.g(memo)", "global:ctl.CACHE"]:
+    if sorted(got) != ["class:ctl.K.table", "classattr:ctl.K.mode", "default:ctl.g(memo)", "global:ctl.CACHE", "global:ctl.NAMES"]:
         raise AnalysisError("positive control failed: %s" % got)
     # ---------------------------------------------------------------- R2
     m, fn = repo.function("xdis.unmarshal.load_code")
